@@ -1,17 +1,17 @@
 /- REGENERATED on every run by harness/props/c07.py (gen_logic) from pdb/file.py, pdb/convert.py, filter.py and hybrid36.pyx. Do not edit. -/
 namespace BiotiteModel.Gen.C07Logic
 def recordNames : List String := ["HETATM", "ATOM"]
-def atomWrap : List String := ["id>0", "(id-1)%_PDB_MAX_ATOMS+1", "id"]
-def resWrap : List String := ["id>0", "(id-1)%_PDB_MAX_RESIDUES+1", "id"]
+def atomWrap : List String := ["id>0", "(id-1)%99999+1", "id"]
+def resWrap : List String := ["id>0", "(id-1)%9999+1", "id"]
 def defaultTexts : List String := [" ", "  0.00", "  1.00", "  "]
-def alignRule : List String := ["len(elem)==1andlen(atm)<4", " {}"]
-def chargeText : List String := ["charge>0", "str(np.abs(charge))+'+'", "charge<0", "str(np.abs(charge))+'-'", "''"]
+def alignRule : List String := ["len(x0)==1 and len(x1)<4", " {}"]
+def chargeText : List String := ["x0>0", "str(np.abs(x0))+'+'", "x0<0", "str(np.abs(x0))+'-'", "''"]
 def isStack : String := "coords.shape[0]>1"
 def endmdl : String := "ENDMDL"
-def carriable : List String := ["np.isin(bond_array[:,0],hetero_indices)", "np.isin(bond_array[:,1],hetero_indices)", "array.res_id[bond_array[:,0]]!=array.res_id[bond_array[:,1]]", "array.chain_id[bond_array[:,0]]!=array.chain_id[bond_array[:,1]]"]
+def carriable : List String := ["np.isin(x0[:,0],x1)", "np.isin(x0[:,1],x1)", "array.res_id[x0[:,0]]!=array.res_id[x0[:,1]]", "array.chain_id[x0[:,0]]!=array.chain_id[x0[:,1]]"]
 def heteroIndices : String := "np.where(array.hetero&~filter_solvent(array))[0]"
-def int64Casts : List String := ["array.atom_id", "array.get_annotation(category)"]
-def setBondsArgs : List String := ["BondList(array.array_length(),bond_array)", "pdb_atom_id"]
+def int64Casts : List String := ["array.atom_id", "array.get_annotation(x0)"]
+def setBondsArgs : List String := ["BondList(array.array_length(),x0)", "x1"]
 def solventList : List String := ["HOH", "SOL"]
 def conectPerRecord : Nat := 4
 def conectParts : List (List String) := [["CONECT", "{>5}"], ["{>5}"]]
@@ -20,27 +20,28 @@ def conectSlices : List (List String) := [["6", "11"], ["i", "i+5"]]
 def bondMapInit : String := "-1"
 def prefixes : List (String × List String) := [("index", ["ATOM|HETATM", "MODEL"]), ("get_structure", ["CRYST1"]), ("get_bonds", ["CONECT"])]
 def padWidth : Nat := 80
-def heteroTest : List String := ["Eq", "HETATM"]
+def heteroTest : List String := ["Eq", "HETATM", "slice(0,6)"]
 def chargeSigns : String := "+-"
-def chargeBlank : List String := ["charge=='  '", "0"]
+def chargeBlank : List String := ["Eq", "  ", "0"]
 def chargeReversed : String := "::-1"
 def altlocModes : List String := ["occupancy", "first", "all"]
 def extraFields : List String := ["atom_id", "charge", "occupancy", "b_factor"]
-def modelIndex : List String := ["model==0", "model<-last_model", "model<last_model", "model==last_model", "last_model+model+1ifmodel<0elsemodel"]
-def modelFilters : List String := ["(self._atom_line_i>=self._model_start_i[model-1])&(self._atom_line_i<self._model_start_i[model])", "self._atom_line_i>=self._model_start_i[model-1]"]
+def modelIndex : List String := ["x0==0", "x0<-x1", "x0<x1", "x0==x1"]
+def modelRebind : List String := ["x0+x1+1 if x1<0 else x1"]
+def modelFilters : List String := ["self.p0<self.p1[x0]", "self.p0>=self.p1[x0-1]"]
 def altlocNoneFirst : List String := [".", "?", " ", ""]
 def altlocNoneOccupancy : List String := [".", "?", " ", ""]
-def altlocBest : List String := ["-1.0", "Gt:highest"]
-def altlocIdOrder : String := "sorted(set(letter_altloc_ids))"
-def checkGuards : List String := ["hybrid36", "'atom_id'inannot_categories", "max_atom_id>max_atoms", "(array.res_id>max_residues).any()", "nothybrid36", "np.isnan(array.coord).any()", "any([len(name)>1fornameinarray.chain_id])", "any([len(name)>3fornameinarray.res_name])", "any([len(name)>4fornameinarray.atom_name])", "any([len(code)>1forcodeinarray.ins_code])", "any([len(element)>2forelementinarray.element])", "'b_factor'inannot_categories", "'occupancy'inannot_categories", "array.boxisnotNone", "'charge'inannot_categories", "min_atom_id<-9999", "(array.res_id<-999).any()", "n_charge_digits>1"]
-def numberCheck : List String := ["notnp.isfinite(values).all()", "n_required>n_columns"]
-def raises : List (String × List String) := [("_check_pdb_compatibility", ["BadStructureError"]), ("_check_number_columns", ["BadStructureError"]), ("_get_atom_record_indices_for_model", ["ValueError"]), ("_get_model_length", ["InvalidFileError"]), ("_get_bonds", ["InvalidFileError"]), ("get_structure", ["ValueError"])]
+def altlocBest : List String := ["-1.0", "Gt"]
+def altlocIdOrder : String := "sorted(set(ids))"
+def checkGuards : List String := ["x0", "'atom_id'in x1", "x2>x3", "(x4.res_id>x5).any()", "not x0", "x6<-9999", "(x4.res_id<-999).any()", "np.isnan(x4.coord).any()", "'b_factor'in x1", "'occupancy'in x1", "x4.box is not None", "len(f'{x7:>9.3f}')>9", "len(f'{x8:>7.2f}')>7", "'charge'in x1", "x9>1"]
+def numberCheck : List String := ["not np.isfinite(x0).all()", "x1>x2"]
+def raises : List (String × List String) := [("check", ["BadStructureError"]), ("numcheck", ["BadStructureError"]), ("select", ["ValueError"]), ("model_length", ["InvalidFileError"]), ("get_bonds", ["InvalidFileError"]), ("get_structure", ["ValueError"])]
 def defaults : List (String × List (String × String)) := [("PDBFile.get_structure", [("model", "None"), ("altloc", "'first'"), ("extra_fields", "[]"), ("include_bonds", "False")]), ("PDBFile.set_structure", [("array", "<required>"), ("hybrid36", "False")]), ("PDBFile.get_coord", [("model", "None")]), ("PDBFile.get_b_factor", [("model", "None")]), ("pdb.get_structure", [("pdb_file", "<required>"), ("model", "None"), ("altloc", "'first'"), ("extra_fields", "[]"), ("include_bonds", "False")]), ("pdb.set_structure", [("pdb_file", "<required>"), ("array", "<required>"), ("hybrid36", "False")])]
 def wrapperForwards : List (String × List String) := [("get_structure", ["model", "altloc", "extra_fields", "include_bonds"]), ("set_structure", ["array", "hybrid36"])]
 /-- hybrid36.pyx, code lines per function -/
 def pyx_encode_hybrid36 : List String := ["def encode_hybrid36(int number, unsigned int length):", "if number < 0:", "raise ValueError(", ")", "if length < 1:", "raise ValueError(", ")", "cdef int num = number", "if num < 10**length:", "return str(num)", "num -= 10**length", "if num < 26 * 36**(length-1):", "num += 10 * 36**(length-1)", "return _encode_base36(num, length, _ASCII_FIRST_LETTER_UPPER)", "num -= 26 * 36**(length-1)", "if num < 26 * 36**(length-1):", "num += 10 * 36**(length-1)", "return _encode_base36(num, length, _ASCII_FIRST_LETTER_LOWER)", "raise ValueError(", ")"]
 def pyx_encode_base36 : List String := ["cdef str _encode_base36(int number, unsigned int length,", "unsigned int ascii_letter_offset):", "cdef unsigned char ascii_char", "cdef int remaining", "cdef int last", "cdef bytearray char_array = bytearray(length)", "cdef unsigned char[:] char_array_v = char_array", "cdef int i = char_array_v.shape[0] - 1", "while i >= 0:", "remaining = number // 36", "last = number - remaining * 36", "if last < 10:", "char_array_v[i] = last + _ASCII_FIRST_NUMBER", "else:", "char_array_v[i] = last + ascii_letter_offset - 10", "number = remaining", "i -= 1", "return char_array.decode(\"ascii\")"]
-def pyx_decode_hybrid36 : List String := ["def decode_hybrid36(str string):", "cdef int base_value", "cdef unsigned int length", "try:", "return int(string)", "except ValueError:", "pass", "cdef bytes char_array = string.strip().encode(\"ascii\")", "cdef const unsigned char[:] char_array_v = char_array", "length = char_array_v.shape[0]", "if length == 0:", "raise ValueError(\"Cannot parse empty string into integer\")", "if char_array_v[0] >= _ASCII_FIRST_LETTER_UPPER \\", "and char_array_v[0] <= _ASCII_LAST_LETTER_UPPER:", "base_value = _decode_base36(", "char_array_v, _ASCII_FIRST_LETTER_UPPER", ")", "return base_value - 10 * 36**(length-1) + 10**length", "elif char_array_v[0] >= _ASCII_FIRST_LETTER_LOWER \\", "and char_array_v[0] <= _ASCII_LAST_LETTER_LOWER:", "base_value = _decode_base36(", "char_array_v, _ASCII_FIRST_LETTER_LOWER", ")", "return base_value + (26-10) * 36**(length-1) + 10**length", "else:", "raise ValueError(", ")"]
+def pyx_decode_hybrid36 : List String := ["def decode_hybrid36(str string):", "cdef int base_value", "cdef unsigned int length", "try:", "return int(string)", "except ValueError:", "pass", "cdef bytes char_array = string.strip().encode(\"ascii\")", "cdef const unsigned char[:] char_array_v = char_array", "length = char_array_v.shape[0]", "if length == 0:", "raise ValueError(", "if char_array_v[0] >= _ASCII_FIRST_LETTER_UPPER \\", "and char_array_v[0] <= _ASCII_LAST_LETTER_UPPER:", "base_value = _decode_base36(", "char_array_v, _ASCII_FIRST_LETTER_UPPER", ")", "return base_value - 10 * 36**(length-1) + 10**length", "elif char_array_v[0] >= _ASCII_FIRST_LETTER_LOWER \\", "and char_array_v[0] <= _ASCII_LAST_LETTER_LOWER:", "base_value = _decode_base36(", "char_array_v, _ASCII_FIRST_LETTER_LOWER", ")", "return base_value + (26-10) * 36**(length-1) + 10**length", "else:", "raise ValueError(", ")"]
 def pyx_decode_base36 : List String := ["cdef int _decode_base36(const unsigned char[:] char_array_v,", "unsigned int ascii_letter_offset):", "cdef int i", "cdef int number = 0", "cdef unsigned char ascii_code", "for i in range(char_array_v.shape[0]):", "number *= 36", "ascii_code = char_array_v[i]", "if ascii_code <= _ASCII_LAST_NUMBER:", "number += ascii_code - _ASCII_FIRST_NUMBER", "else:", "number += ascii_code - ascii_letter_offset + 10", "return number"]
 def pyx_max_hybrid36_number : List String := ["def max_hybrid36_number(length):", "return 10**length - 1 + 2 * (26 * 36**(length-1))"]
 end BiotiteModel.Gen.C07Logic
